@@ -277,6 +277,9 @@ func (f Wildcard) locate(pp Expr, data any, rest Expr, max int) (locs []Expr) {
 			rt = rt.Elem()
 			rd = rd.Elem()
 		}
+		if !rd.IsValid() { // a nil pointer
+			break
+		}
 		if len(rest) == 0 { // last one
 			switch rt.Kind() {
 			case reflect.Struct:
@@ -460,6 +463,9 @@ func wildWalk(rest, path Expr, nodes []any, cb func(path Expr, nodes []any), f F
 			case reflect.Ptr:
 				rt = rt.Elem()
 				rd = rd.Elem()
+				if !rd.IsValid() { // a nil pointer
+					break
+				}
 				goto rwalk
 			case reflect.Struct:
 				cnt := rd.NumField()
